@@ -662,20 +662,23 @@ LIGHT_JVM = {"JAVA_TOOL_OPTIONS": "-XX:TieredStopAtLevel=1 -XX:ParallelGCThreads
 
 def export_runs(ck, module: str, invs: List[str], runs: List[Tuple[str, Dict[str, Any]]], par: int = 4,
                 timeout: int = 1500, light: bool = False, **kw):
-    """One TLC run per (label, constants): model invariants + export. Returns [(label, consts, groups)]."""
+    """One TLC run per (label, constants): model invariants + export. Yields (label, consts, groups) as the runs
+    finish (in the given order), so the caller can replay and drop each export before the next one."""
     from concurrent.futures import ThreadPoolExecutor
     from harness import core, tlc
 
     def one(item):
         label, c = item
-        return tlc.run(module, tlc.cfg_text(c, invariants=invs + ["Export"]), workers=1, timeout=timeout, xmx="2g",
-                       allow_violation=False, env_extra=LIGHT_JVM if light else None, **kw)
-    out = []
+        res = tlc.run(module, tlc.cfg_text(c, invariants=invs + ["Export"]), workers=1, timeout=timeout, xmx="2g",
+                      allow_violation=False, env_extra=LIGHT_JVM if light else None, **kw)
+        groups = core.group_allowed(res.lines)
+        res.lines, res.raw = res.lines[:0] + [None] * 0, ""      # keep only the counters
+        return res, len(groups), groups
     with ThreadPoolExecutor(par) as ex:
-        for (label, c), res in zip(runs, ex.map(one, runs)):
+        for (label, c), (res, n, groups) in zip(runs, ex.map(one, runs)):
             ck.add_tlc(res, label)
-            out.append((label, c, core.group_allowed(res.lines)))
-    return out
+            ck.tlc_runs[-1]["exported"] = n
+            yield (label, c, groups)
 
 
 # ---- sampled scenarios for instances too large to enumerate (thorough tier) ---------------------
@@ -772,7 +775,9 @@ def export_sampled(ck, module: str, invs: List[str], label: str, consts: Dict[st
     finally:
         os.unlink(path)
     ck.add_tlc(res, label)
-    return (label, consts, core.group_allowed(res.lines))
+    groups = core.group_allowed(res.lines)
+    ck.tlc_runs[-1]["exported"] = len(groups)
+    return (label, consts, groups)
 
 
 def _job(args):
